@@ -72,7 +72,12 @@ fn analyse_range(w: &WorldInner, tracer: usize, from: usize, to: usize, t_end: u
     let log = &w.log;
     let close = |cur: &mut Option<Group>, groups: &mut Vec<Group>| {
         if let Some(g) = cur.take() {
-            groups.push(g);
+            // socket options alone on a shared send socket (nothing sent, nothing failed) are
+            // not a dispatch
+            let options_only = g.wire.is_none() && g.failed.is_none() && g.bind.is_none() && g.connect.is_none() && log[g.first].op != Op::NewSocket;
+            if !options_only {
+                groups.push(g);
+            }
         }
     };
     let mut i = from;
